@@ -12,6 +12,7 @@ from .c01 import text_variant
 
 SPEC = {
     "level": "exploration",
+    "suite_under_monitor": True,
     "technique": "metamorphic runtime contract (icontract ensure) on canonicalize_molecule: shadow relabelling, labelled-graph equality",
     "rule": ("cases as in C01 (M1 exhaustive n<=4/5 x 3 colours, M2, M3 partially labelled orbits, M4, M5, M6 corpus, CFI in thorough); every "
              "canonicalize_molecule call is followed by k shadow calls on harness-relabelled copies and the node->(element,mass,radical,class) "
